@@ -10,7 +10,7 @@ from . import c02
 
 ID = 'C03'
 LEVEL = 'exploration'
-RUNS = {'quick': 9600}
+RUNS = {'quick': 6400}
 BUDGET_S = {'thorough': 600}
 RULE = ('one evaluation = one simulated session as in C02, with timestamps taken from the simulator clock (equal stamps, '
         'sub-ms steps, gaps around one second, minutes; random 32-bit epoch). After every message the alive flag of every '
